@@ -1139,6 +1139,8 @@ func genC06(c *Ctx) {
 	c06Directed(c, envs)
 	c06History(c, envs)
 	c06ScalarBoundary(c, envs)
+	c06ShallowCopyPrecision(c, envs)
+	c06PlaintextHistory(c, envs)
 	c06Independence(c, envs)
 	c06RescaleChains(c, envs)
 	c06Malformed(c, envs)
@@ -1513,6 +1515,233 @@ func c06ScalarBoundary(c *Ctx, envs []*c06Env) {
 					return ""
 				})
 				c.Probe("program_precision", args, "C06/precision:scalar-boundary", d)
+			}
+		}
+	}
+}
+
+// c06ShallowCopyPrecision: in the high-precision mode (encoding precision > 53 bits) an evaluator / encoder obtained
+// from ShallowCopy() must encode vector operands at the SAME precision: the error bound is the one implied by the
+// scale (noise/scale), far below 2^-53; results are decoded into arbitrary-precision receivers with a ShallowCopy'd encoder.
+func c06ShallowCopyPrecision(c *Ctx, envs []*c06Env) {
+	for _, e := range envs {
+		if e.params.EncodingPrecision() <= 53 {
+			continue
+		}
+		ds := e.params.DefaultScale()
+		L := e.params.MaxLevel()
+		evalSC := e.eval.ShallowCopy()
+		ecdSC := e.ecd.ShallowCopy()
+		prec := e.params.EncodingPrecision()
+		tol := 16 * e.noiseTerm(ds)
+		for rep := 0; rep < c.Scale(2, 6); rep++ {
+			for _, kind := range []string{"float64", "complex128", "bigfloat", "short-float64"} {
+				if e.ci && kind == "complex128" {
+					continue
+				}
+				for _, opn := range []string{"AddNew", "SubNew", "MulNew"} {
+					ls := e.logMax
+					slots := 1 << ls
+					n := slots
+					if kind == "short-float64" {
+						n = 1 + c.rng.Intn(slots-1)
+					}
+					// exactly representable inputs: k/2^20
+					x := make([]complex128, slots)
+					v := make([]complex128, n)
+					for i := range x {
+						x[i] = complex(float64(c.rng.Intn(1<<20))/float64(1<<20)-0.5, 0)
+					}
+					for i := range v {
+						v[i] = complex(float64(c.rng.Intn(1<<20))/float64(1<<20)-0.5, 0)
+						if kind == "complex128" {
+							v[i] = complex(real(v[i]), float64(c.rng.Intn(1<<20))/float64(1<<20)-0.5)
+						}
+					}
+					var operand interface{}
+					switch kind {
+					case "complex128":
+						operand = v
+					case "bigfloat":
+						b := make([]*big.Float, n)
+						for i := range b {
+							b[i] = new(big.Float).SetPrec(prec).SetFloat64(real(v[i]))
+						}
+						operand = b
+					default:
+						f := make([]float64, n)
+						for i := range f {
+							f[i] = real(v[i])
+						}
+						operand = f
+					}
+					args := fmt.Sprintf("%s %s operand=%s len=%d/%d encodingPrecision=%d", e.tag, opn, kind, n, slots, prec)
+					d := Try(func() string {
+						pt := ckks.NewPlaintext(e.params, L)
+						pt.LogDimensions.Cols = ls
+						if err := ecdSC.Encode(x, pt); err != nil {
+							return "encode error"
+						}
+						ct, err := e.enc.EncryptNew(pt)
+						if err != nil {
+							return "encrypt error"
+						}
+						var res *rlwe.Ciphertext
+						switch opn {
+						case "AddNew":
+							res, err = evalSC.AddNew(ct, operand)
+						case "SubNew":
+							res, err = evalSC.SubNew(ct, operand)
+						case "MulNew":
+							res, err = evalSC.MulNew(ct, operand)
+						}
+						if err != nil {
+							return "call failed"
+						}
+						have := make([]*bignum.Complex, slots)
+						if err := ecdSC.Decode(e.dec.DecryptNew(res), have); err != nil {
+							return "decode error"
+						}
+						for i := 0; i < slots; i++ {
+							w := complex(0, 0)
+							if i < n {
+								w = v[i]
+							}
+							var want complex128
+							switch opn {
+							case "AddNew":
+								want = x[i] + w
+							case "SubNew":
+								want = x[i] - w
+							case "MulNew":
+								want = x[i] * w // products of 20-bit dyadics: exact in complex128
+							}
+							dr, _ := new(big.Float).SetPrec(300).Sub(have[i][0], new(big.Float).SetFloat64(real(want))).Float64()
+							di, _ := new(big.Float).SetPrec(300).Sub(have[i][1], new(big.Float).SetFloat64(imag(want))).Float64()
+							if x := math.Hypot(dr, di); !(x <= tol) {
+								return fmt.Sprintf("slot=%d log2err=%d log2tol=%d", i, int(math.Ceil(math.Log2(x))), int(math.Ceil(math.Log2(tol))))
+							}
+						}
+						return ""
+					})
+					c.Probe("program_precision", args, "C06/precision:shallowcopy-highprec", d)
+				}
+			}
+		}
+	}
+}
+
+// c06PlaintextHistory: plaintext operands with a history (allocated at a low level, Copy from a higher level / CopyNew /
+// Resize, then Encode, then use above the old level): `pt.Value` must stay bound to `pt.Element.Value[0]` (same rows,
+// same level) after every plaintext-mutating API, and the operation must see the freshly encoded values.
+func c06PlaintextHistory(c *Ctx, envs []*c06Env) {
+	for _, e := range envs {
+		ds := e.params.DefaultScale()
+		L := e.params.MaxLevel()
+		bound := func(pt *rlwe.Plaintext) string {
+			a, b := pt.Value.Coeffs, pt.Element.Value[0].Coeffs
+			if len(a) != len(b) {
+				return fmt.Sprintf("pt.Value has %d rows, pt.Element.Value[0] has %d", len(a), len(b))
+			}
+			for i := range a {
+				if &a[i][0] != &b[i][0] {
+					return fmt.Sprintf("row %d of pt.Value is not the row of pt.Element.Value[0]", i)
+				}
+			}
+			return ""
+		}
+		mkHigh := func() (*rlwe.Plaintext, []complex128) {
+			v := e.randVals(c, 1<<e.logMax, 1)
+			pt := ckks.NewPlaintext(e.params, L)
+			if err := e.ecd.Encode(v, pt); err != nil {
+				panic(err)
+			}
+			return pt, v
+		}
+		type hist struct {
+			name string
+			f    func() *rlwe.Plaintext
+		}
+		hs := []hist{
+			{"NewPlaintext", func() *rlwe.Plaintext { return ckks.NewPlaintext(e.params, L) }},
+			{"low.Copy(high)", func() *rlwe.Plaintext {
+				hi, _ := mkHigh()
+				pt := ckks.NewPlaintext(e.params, 0)
+				pt.Copy(hi)
+				return pt
+			}},
+			{"high.Copy(low)-then-Copy(high)", func() *rlwe.Plaintext {
+				hi, _ := mkHigh()
+				lo := ckks.NewPlaintext(e.params, 0)
+				pt := ckks.NewPlaintext(e.params, L)
+				pt.Copy(lo)
+				pt.Copy(hi)
+				return pt
+			}},
+			{"CopyNew", func() *rlwe.Plaintext { hi, _ := mkHigh(); return hi.CopyNew() }},
+			{"low.Resize(0,L)", func() *rlwe.Plaintext { pt := ckks.NewPlaintext(e.params, 0); pt.Resize(0, L); return pt }},
+			{"low.CopyNew-then-Copy(high)", func() *rlwe.Plaintext {
+				hi, _ := mkHigh()
+				pt := ckks.NewPlaintext(e.params, 0).CopyNew()
+				pt.Copy(hi)
+				return pt
+			}},
+		}
+		for _, h := range hs {
+			for _, opn := range []string{"Add", "Mul"} {
+				args := fmt.Sprintf("%s plaintext=%s op=%s", e.tag, h.name, opn)
+				var ptOut *rlwe.Plaintext
+				d := Try(func() string {
+					pt := h.f()
+					ptOut = pt
+					if s := bound(pt); s != "" {
+						return s
+					}
+					if pt.Level() != L {
+						return fmt.Sprintf("level %d, expected %d", pt.Level(), L)
+					}
+					v := e.randVals(c, 1<<e.logMax, 1)
+					pt.Scale = c06Scale(ds)
+					pt.LogDimensions.Cols = e.logMax
+					if err := e.ecd.Encode(v, pt); err != nil {
+						return "encode error"
+					}
+					if s := bound(pt); s != "" {
+						return "after Encode: " + s
+					}
+					a := e.fresh(c, L, e.logMax, ds)
+					var res *rlwe.Ciphertext
+					var err error
+					want := make([]complex128, len(a.want))
+					if opn == "Add" {
+						res, err = e.eval.AddNew(a.ct, pt)
+						for i := range want {
+							want[i] = a.want[i] + v[i]
+						}
+					} else {
+						res, err = e.eval.MulNew(a.ct, pt)
+						for i := range want {
+							want[i] = a.want[i] * v[i]
+						}
+					}
+					if err != nil {
+						return "call failed"
+					}
+					have := e.decode(res)
+					tol := 16*e.noiseTerm(ds) + math.Exp2(-40)
+					for i := range have {
+						if x := cmplx.Abs(have[i] - want[i]); !(x <= tol) {
+							return fmt.Sprintf("slot=%d log2err=%d log2tol=%d", i, int(math.Ceil(math.Log2(x))), int(math.Ceil(math.Log2(tol))))
+						}
+					}
+					return ""
+				})
+				_ = ptOut
+				key := "C06/precision:plaintext-history"
+				if strings.Contains(h.name, "Resize") {
+					key = "C06/plaintext-resize-value-not-rebound"
+				}
+				c.Probe("plaintext_history", args, key, d)
 			}
 		}
 	}
